@@ -23,6 +23,7 @@ SHARED = {
     "DocHom": ["C07", "C04", "C19"],
     "HomAll": ["C07", "C04", "C02", "C03"],
     "FuncAlg": ["C13", "C06", "C03"],
+    "Generators": ["C12"],
     "FlatSteps": ["C01", "C08", "C15"],
 }
 
